@@ -250,7 +250,7 @@ fn exercise(b: &Board, rep: &mut Report) {
     rep.seen(hash_bytes(&pack(&p, lib_ep_file(b))));
 }
 
-fn judge_text(text: &str, must_accept: bool, rep: &mut Report) {
+pub fn judge_text(text: &str, must_accept: bool, rep: &mut Report) {
     rep.eval();
     rep.count("op_board_from_str");
     let r = catch_unwind(AssertUnwindSafe(|| Board::from_str(text)));
@@ -379,7 +379,7 @@ fn mutate(rng: &mut Rng, s: &str) -> String {
                 if toks.len() >= 4 {
                     toks[3] = match rng.below(4) {
                         0 => sq_name(rng.below(64) as u8),
-                        1 => rng.pick(&["e9", "i3", "e3e3", "--", "é3", "e", "3e", "a0", "h9x", "E3"]).to_string(),
+                        1 => rng.pick(&["e9", "i3", "e3e3", "--", "é3", "e", "3e", "a0", "h9x", "E3", "eé", "a\u{301}", "h♞", "e\u{10ffff}", "b\u{0}", "ａ3", "e３"]).to_string(),
                         2 => format!("{}{}", (b'a' + rng.below(8) as u8) as char, if rng.chance(1, 2) { '3' } else { '6' }),
                         _ => "-".to_string(),
                     };
